@@ -32,6 +32,8 @@ LitsZ == {"0", "2", "2.5"}
 LitsTwo == {"2", "0.5"}
 LitsThree == {"0", "3", "2.5"}
 FamAll == {"pairs", "unbin", "tricky", "scale"}
+FamTies == {"ties"}
+FamTiesT == {"ties", "tiesT"}
 FamPairs == {"pairs"}
 FamUn == {"unbin", "tricky"}
 NoFam == {}
@@ -86,7 +88,68 @@ Scale(top) ==
   ELSE IF top = "+" THEN {Bin("+", L("3"), Bin("*", t, L("4"))) : t \in ScaleE}
   ELSE {}
 
-Trees(top) == (IF "scale" \in Families THEN Scale(top) ELSE {}) \cup (IF "pairs" \in Families THEN Pairs(top) ELSE {})
+(* ---- `round` on the number as written (family "ties"; "tiesT" widens it) ----            *)
+(* Left operands of round: decimal numerals that sit exactly on a rounding tie for 1, 2 or 3   *)
+(* digits and have no exact binary representation (the double lies below the tie for some,     *)
+(* above it for others), ties that are exact in binary, near-ties, integers (ties for negative *)
+(* digit counts); each as a numeral, negated, as the quotient of two exact numbers and scaled   *)
+(* by a power of two -- the ways a value reaches round with the code still holding the double   *)
+(* nearest to the written number (Expr!Near).  Digit counts 0..3, negative, fractional.         *)
+Wide == "tiesT" \in Families
+TieNums == {"0.15", "1.45", "0.45", "0.285", "1.005", "2.675", "0.995", "0.005", "0.1235", "0.0015",
+            "0.125", "0.0625", "2.5", "2.674"}
+           \cup (IF Wide THEN {"0.35", "2.55", "0.075", "1.0005", "1.445", "0.375", "0.25", "0.75", "1.25",
+                               "1.5", "0.5", "2.676", "1.0049"} ELSE {})
+TieInts == {"5", "25", "250"} \cup (IF Wide THEN {"15", "400", "5000", "12", "3"} ELSE {})
+TieDigits == {L("0"), L("1"), L("2"), L("3"), Un("-", L("1")), Un("-", L("2")), L("1.5"), L("2.5")}
+             \cup (IF Wide THEN {L("4"), L("10"), Un("-", L("3")), L("0.5"), Un("-", L("0.5")), Un("-", L("4"))} ELSE {})
+TieFracPairs == {<<"3", "400">>, <<"1", "400">>, <<"9", "400">>, <<"0.75", "10">>, <<"1.5", "10">>,
+                 <<"201", "200">>, <<"107", "40">>, <<"57", "200">>}
+                \cup (IF Wide THEN {"1", "3", "7", "9", "1.5", "0.75", "3.5", "0.25"} \X {"10", "40", "200", "400"} ELSE {})
+TieFracs == {Bin("/", L(p[1]), L(p[2])) : p \in TieFracPairs}
+            \cup (IF Wide THEN {Bin("div", L(p[1]), L(p[2])) : p \in TieFracPairs} ELSE {})
+TieScaled == {Bin("/", L(t), L("2")) : t \in TieNums} \cup {Bin("*", L(t), L("2")) : t \in TieNums}
+             \cup (IF Wide THEN {Bin("*", L("0.5"), L(t)) : t \in TieNums} \cup {Bin("/", L(t), L("0.25")) : t \in TieNums}
+                                \cup {Bin("*", L("4"), Un("-", L(t))) : t \in TieNums}
+                   ELSE {})
+TieLeft == {L(t) : t \in TieNums \cup TieInts} \cup {Un("-", L(t)) : t \in TieNums \cup TieInts}
+           \cup TieFracs \cup {Un("-", f) : f \in TieFracs} \cup TieScaled
+           \cup (IF Wide THEN {Un("abs", Un("-", L(t))) : t \in TieNums} \cup {Un("+", L(t)) : t \in TieNums} ELSE {})
+TieRounds == {Bin("round", l, k) : l \in TieLeft, k \in TieDigits}
+\* a rounding whose result is used: rounded again, compared with a written numeral
+\* (what #ifexpr does), scaled, negated, inside a sum
+TieK == {L("1"), L("2"), L("3")}
+TieInner == {Bin("round", L(t), k) : t \in TieNums, k \in TieK}
+TieCmpNums == {"0.29", "0.28", "1.01", "1", "2.68", "2.67", "0.2", "0.1", "1.5", "2.7"}
+Ties(top) ==
+  CASE top = "round" -> TieRounds \cup {Bin("round", r, k) : r \in TieInner, k \in {L("0"), L("1"), L("2")}}
+    [] top \in {"=", "<"} \cup (IF Wide THEN {">=", "!=", "<>", ">", "<="} ELSE {}) ->
+         {Bin(top, r, L(c)) : r \in TieInner, c \in TieCmpNums}
+         \cup (IF Wide THEN {Bin(top, L(c), r) : r \in TieInner, c \in TieCmpNums} ELSE {})
+    [] top = "*" -> {Bin("*", r, L("100")) : r \in TieInner}
+    [] top = "+" -> {Bin("+", L("1"), r) : r \in TieInner}
+    [] top = "-" -> {Un("-", r) : r \in TieInner}
+    [] OTHER -> {}
+
+\* what kind of roundings a tree contains (reported with every generated case)
+RECURSIVE TieKinds(_)
+TieKinds(a) ==
+  CASE a[1] = "lit" -> {}
+    [] a[1] = "un" -> TieKinds(a[3])
+    [] a[1] = "bin" ->
+         TieKinds(a[3]) \cup TieKinds(a[4]) \cup
+         (IF a[2] # "round" THEN {}
+          ELSE LET v == Fold(a[3])
+                   kv == Fold(a[4]) IN
+               IF v.kind # "val" \/ kv.kind # "val" \/ ~v.ex \/ ~kv.ex THEN {"round-inexact"}
+               ELSE LET k == TruncI(kv.n, kv.d) IN
+                    IF k > 4 \/ k < -4 THEN {"round-far"}
+                    ELSE IF ~(IF k >= 0 THEN IsTie(v.n * Pow10(k), v.d) ELSE IsTie(v.n, v.d * Pow10(-k))) THEN {"round-no-tie"}
+                    ELSE IF v.fx THEN {"round-tie-exact-in-binary"}
+                    ELSE IF v.nr THEN {"round-tie-decimal-only"}
+                    ELSE {"round-tie-undecided"})
+
+Trees(top) == (IF "scale" \in Families THEN Scale(top) ELSE {}) \cup (IF "ties" \in Families THEN Ties(top) ELSE {}) \cup (IF "pairs" \in Families THEN Pairs(top) ELSE {})
               \cup (IF "unbin" \in Families THEN UnBin(top) ELSE {})
               \cup (IF "tricky" \in Families THEN Tricky(top) ELSE {})
 
@@ -114,6 +177,24 @@ ReferenceComputesFold ==
   LET f == Fold(x) IN
   /\ Same(MWOutcome(RenderMin(x)), f)
   /\ Same(MWOutcome(RenderFull(x)), f)
+
+\* M (C18, declarative reference for round): when the code holds the number as written
+\* (Near) the value of `v round k` is the multiple of 10^-k nearest to v, and of the two
+\* nearest ones at a tie the one away from zero
+RoundIsNearestAwayFromZero ==
+  (IsTree /\ x[1] = "bin" /\ x[2] = "round") =>
+    LET v == Fold(x[3])
+        kv == Fold(x[4])
+        f == Fold(x) IN
+    (v.kind = "val" /\ kv.kind = "val" /\ Near(v) /\ Near(kv) /\ TruncI(kv.n, kv.d) \in -4..3) =>
+      LET k == TruncI(kv.n, kv.d)
+          s == IF k >= 0 THEN Pow10(k) ELSE 1         \* f * s is an integer ...
+          u == IF k >= 0 THEN 1 ELSE Pow10(-k)         \* ... that is a multiple of u
+          diff == AbsI(f.n * v.d - v.n * f.d)          \* |f - v| = diff / (f.d * v.d)
+      IN /\ f.kind = "val" /\ f.ex
+         /\ (f.n * s) % f.d = 0 /\ ((f.n * s) \div f.d) % u = 0
+         /\ 2 * s * diff <= u * f.d * v.d
+         /\ (2 * s * diff = u * f.d * v.d) => AbsI(f.n) * v.d > AbsI(v.n) * f.d
 
 (* ---- token soups ---- *)
 SoupQ == {"0", "1", "2.5", "400", "HUGE", "TINY", "+", "-", "*", "/", "^", "e", "mod", "round",
